@@ -320,6 +320,20 @@ def search(ctx, broken, seeds):
 
     rng = ctx.rng
     fast = ["sha256_crypt", "pbkdf2_sha256", "md5_crypt", "des_crypt", "phpass", "ldap_md5", "sha1_crypt"]
+    # cost variation next to a scheme's hard limit: the context must still be able to hash, and must not flag the result
+    for s in ("sha256_crypt", "sha512_crypt", "pbkdf2_sha256", "sha1_crypt"):
+        h = registry.get_crypt_handler(s)
+        for d in (h.min_rounds, h.min_rounds + 2, h.min_rounds + 30):
+            for vary in (5, 0.05, "10%"):
+                kw = {"schemes": [s], f"{s}__default_rounds": d, "all__vary_rounds": vary}
+                c = CryptContext(**kw)
+                for _ in range(12):
+                    try:
+                        fresh = c.hash("pw")
+                    except Exception as e:  # noqa: BLE001
+                        return {"input": {"op": "hash-vary", "kwds": kw}, "observed": errname(e) + ": " + str(e), "expected": "a hash of the default scheme at the configured cost"}
+                    if c.needs_update(fresh):
+                        return {"input": {"op": "hash-vary", "kwds": kw}, "observed": {"hash": fresh, "needs_update": True}, "expected": "a hash the context has just produced never needs updating"}
     for _ in range(80 if not ctx.thorough else 1500):
         schemes = rng.sample(fast, rng.randrange(1, 5))
         kw = {"schemes": schemes}
@@ -387,5 +401,17 @@ def replay(ctx, inp):
         h = c.hash("pw", category=inp.get("category"))
         flagged = c.needs_update(h, category=inp.get("category"))
         return {"fails": bool(flagged), "observed": {"hash": h, "needs_update": flagged}}
+    if inp.get("op") == "hash-vary":
+        from passlib.context import CryptContext
+
+        c = CryptContext(**inp["kwds"])
+        for _ in range(200):
+            try:
+                h = c.hash("pw")
+            except Exception as e:  # noqa: BLE001
+                return {"fails": True, "observed": errname(e) + ": " + str(e)}
+            if c.needs_update(h):
+                return {"fails": True, "observed": {"hash": h, "needs_update": True}}
+        return {"fails": False, "observed": "200 fresh hashes made and none flagged"}
     r = search(ctx, [], [])
     return {"fails": r is not None, "observed": r}
